@@ -60,6 +60,7 @@ type oracles struct {
 	importFailLeft, failedCreates                 int
 	importWasInFlight, cleanRestartImportInFlight bool
 	preRestart                                    *modelAt
+	completeOff                                   bool
 	inRestart                                     bool
 	firstSeen                                     map[string]string
 	cacheEvents                                   []cacheEvent     // API steps that changed converter caches
@@ -606,11 +607,8 @@ func (o *oracles) final() {
 	if o.s.plan.NoOracle || o.state == nil {
 		return
 	}
-	cut := o.s.stepNo >= o.s.plan.MaxSteps
 	if len(o.s.enabled()) != 0 {
-		cut = true
-	}
-	if cut {
+		// cut by the step budget
 		return
 	}
 	// one tick so that pending tag events are flushed, then re-check
